@@ -1195,7 +1195,7 @@ class LegCharge:
             if flat_index < 0:
                 msg = f'flat index {flat_index - self.ind_len:d} too negative for leg with ind_len {self.ind_len:d}'
                 raise IndexError(msg)
-        elif flat_index > self.ind_len:
+        elif flat_index >= self.ind_len:
             raise IndexError(f'flat index {flat_index:d} too large for leg with ind_len {self.ind_len:d}')
         qind = bisect.bisect(self.slices, flat_index) - 1
         return qind, flat_index - self.slices[qind]
